@@ -255,6 +255,44 @@ def bounded(tier, seed):
                                            "got": eff.get("width"), "want": 47})
                 finally:
                     shutil.rmtree(d, ignore_errors=True)
+    # ... also a nearest config file that sets nothing (an empty table, an empty file): it is the project's config, the values
+    # of a config further up do not leak in; and the search starts at the working directory, not at a path argument
+    for inner, content in (("pyproject.toml", "[tool.flowmark]\n"), ("pyproject.toml", "[tool.other]\nx = 1\n\n[tool.flowmark]\n# nothing yet\n"),
+                           (".flowmark.toml", ""), ("flowmark.toml", "# empty\n")):
+        d = scratch_dir("vf-c16-")
+        try:
+            top = os.path.join(d, "top")
+            work = os.path.join(top, "work")
+            os.makedirs(work)
+            open(os.path.join(top, ".flowmark.toml"), "w").write("width = 41\nsemantic = true\n")
+            open(os.path.join(work, inner), "w").write(content)
+            open(os.path.join(work, "doc.md"), "w").write("x\n")
+            rc, eff, err = observe(["doc.md"], work)
+            evals += 1
+            if eff.get("width") != 88 or eff.get("semantic") is not False:
+                violations.append({"clause": "nearest_config_wins", "input": {"outer": ".flowmark.toml (width 41, semantic)", "inner": inner, "inner_content": content},
+                                   "got": {"width": eff.get("width"), "semantic": eff.get("semantic")}, "want": {"width": 88, "semantic": False}})
+        finally:
+            shutil.rmtree(d, ignore_errors=True)
+    d = scratch_dir("vf-c16-")
+    try:
+        top = os.path.join(d, "top")
+        os.makedirs(os.path.join(top, "docs"))
+        os.makedirs(os.path.join(d, "other"))
+        open(os.path.join(top, ".flowmark.toml"), "w").write("width = 41\n")
+        open(os.path.join(top, "docs", ".flowmark.toml"), "w").write("width = 47\n")
+        open(os.path.join(d, "other", ".flowmark.toml"), "w").write("width = 53\n")
+        for rel in ("docs/a.md", "a.md"):
+            open(os.path.join(top, rel), "w").write("x\n")
+        open(os.path.join(d, "other", "o.md"), "w").write("x\n")
+        for argv in (["docs/a.md"], ["docs"], ["../other/o.md"], [os.path.join(d, "other", "o.md")], ["a.md"], ["docs/a.md", "a.md"]):
+            rc, eff, err = observe(argv, top)
+            evals += 1
+            if eff.get("width") != 41:
+                violations.append({"clause": "nearest_config_wins", "input": {"cwd": "top (width 41)", "argv": argv, "note": "docs/ has width 47, ../other has width 53"},
+                                   "got": eff.get("width"), "want": 41})
+    finally:
+        shutil.rmtree(d, ignore_errors=True)
     # a config above a repository root (.git directory or file) still applies when nothing nearer exists
     for marker in ("dir", "file"):
         d = scratch_dir("vf-c16-")
@@ -328,7 +366,7 @@ def bounded(tier, seed):
     from . import funcspecs as FS
     evals += FS.parse_config_sweep(violations)
     return {"evaluations": evals, "distinct_nontrivial": len(distinct), "violations": violations, "samples": samples,
-            "rule": "(also: flags given in clusters of short options, with attached values, as --opt=value or as unambiguous prefixes win over the config file) (also: _parse_config_data sets exactly the named field to exactly the given value for all 13 keys x {kebab, snake} x {top level, [formatting], [file-discovery], other section}, all pairs together, unknown keys warned about and ignored) (also: nearest config file wins for all 9 kind pairs, adjacent or one level apart; --list-files honours the discovery keys of the config) (also, end to end on the output bytes of an option-sensitive document: each formatting key set in a config file "
+            "rule": "(also: a nearest config file that sets nothing still ends the search; the search starts at the working directory whatever paths are named) (also: flags given in clusters of short options, with attached values, as --opt=value or as unambiguous prefixes win over the config file) (also: _parse_config_data sets exactly the named field to exactly the given value for all 13 keys x {kebab, snake} x {top level, [formatting], [file-discovery], other section}, all pairs together, unknown keys warned about and ignored) (also: nearest config file wins for all 9 kind pairs, adjacent or one level apart; --list-files honours the discovery keys of the config) (also, end to end on the output bytes of an option-sensitive document: each formatting key set in a config file "
                     "gives the same output as the equivalent flag, and a different one from no setting) 13 settings x {flag given, not} x {config sets, not} x {--auto, not} (+ flag passed with its default value) "
                     "x config kind {.flowmark.toml flat snake, flowmark.toml sectioned kebab, pyproject [tool.flowmark], parent "
                     "directory with a section-less pyproject nearer}; quick rotates the kind, thorough takes all; observed at the "
